@@ -544,3 +544,23 @@ Proof.
   - unfold emit. cbn [tp_formulas]. rewrite !in_app_iff. right; right. apply in_map_iff. exists a; auto.
   - intros FI M e. cbn [n_formula]. apply in_problem_meaning; [exact Hok|exact Ha|apply TptpSem.env_rel_of].
 Qed.
+
+(* ---------- C12 at the level of the text: the preamble ---------- *)
+Theorem preamble_reads : read_problem preamble_text = Some (mktp pre_decls_tff pre_named_tff).
+Proof. vm_compute. reflexivity. Qed.
+Theorem preamble_text_bytes : preamble_text = preamble_bytes.
+Proof. vm_compute. reflexivity. Qed.
+Theorem display_starts_with_preamble p txt : problem_display p = Some txt -> exists rest, txt = (preamble_text ++ rest)%string.
+Proof.
+  unfold problem_display. destruct (concat_opt (map formula_line (pb_formulas p))) as [fs|]; [|discriminate].
+  intros [= <-]. eexists. reflexivity.
+Qed.
+(* what is read from an emitted text starts with what is read from the preamble alone *)
+Theorem text_contains_preamble p txt tp : ident_ok p = true ->
+  (forall a, In a (pb_formulas p) -> wf_lex (pf_formula a) = true) ->
+  problem_display p = Some txt -> read_problem txt = Some tp ->
+  exists ds fs, tp_decls tp = pre_decls_tff ++ ds /\ tp_formulas tp = pre_named_tff ++ fs.
+Proof.
+  intros Hok Hlex Hd Hr. rewrite (display_reads_as_emit_lex p Hok Hlex txt Hd) in Hr. injection Hr as <-.
+  unfold emit. cbn [tp_decls tp_formulas]. eexists. eexists. split; reflexivity.
+Qed.
